@@ -1111,6 +1111,7 @@ def directed_ops(E, fx, rng, limit=70):
                     must.append({"op": "wp", "oid": oid, "pid": pid, "idx": None, "tags": tags, "prio": None,
                                  "vclass": "typed"})
             must.extend(charset_ops(E, inst, oid, name, p, rng))
+            must.extend(signed_zero_ops(E, inst, oid, name, p, rng))
             k = limited_unsigned(p.datatype)
             if k is not None and p.mutable and inst._values.get(name) is not None:
                 for vclass, make in (("typed", lambda: gen_tags(E, p.datatype, rng)),
@@ -1177,6 +1178,45 @@ def charset_ops(E, inst, oid, name, p, rng):
             op["prio"] = rng.choice([None, 7])
         ops.append(op)
         ops.append({"op": "rpm", "specs": [{"oid": oid, "refs": [{"pid": pid, "idx": idx}]}]})
+    return ops
+
+
+def signed_zero_ops(E, inst, oid, name, p, rng):
+    """values that Python's == calls equal but that encode differently: +0.0 / -0.0 of Real and
+    Double, written one after the other (and back) to a writable scalar, array element, whole array
+    or list of that datatype; the write oracle reads each back and compares OCTETS (bit pattern).
+    Not on Commandable properties: there the library's own "no present value change" shortcut
+    compares with == (C17's exclusion, notes/C15.md)."""
+    from bacpypes.primitivedata import Real, Double
+    from bacpypes.constructeddata import Array, List
+    dt = p.datatype
+    k = dt.subtype if issubclass(dt, (Array, List)) else dt
+    if not (isinstance(k, type) and issubclass(k, (Real, Double))) or not p.mutable \
+            or inst._values.get(name) is None or E.sch.custom(p) != "std":
+        return []
+    cp = cmd_props(inst)
+    if cp is not None and name in cp:
+        return []
+    tagnum, width = (4, 4) if issubclass(k, Real) else (5, 8)
+    plus = [0, tagnum, width, "00" * width]
+    minus = [0, tagnum, width, "80" + "00" * (width - 1)]
+    ops, pid = [], E.pidnum[name]
+    order = [plus, minus, plus, minus] if rng.random() < 0.5 else [minus, plus, minus]
+    for z in order:
+        idx = None
+        if issubclass(dt, Array):
+            n = cur_len(inst, name)
+            fixed = getattr(dt, "fixed_length", None)
+            if n >= 1 and rng.random() < 0.6:
+                idx, tags = 1, [z]
+            else:
+                tags = [z] * (fixed if fixed is not None else 2)
+        elif issubclass(dt, List):
+            tags = [z, z]
+        else:
+            tags = [z]
+        ops.append({"op": "wp", "oid": oid, "pid": pid, "idx": idx, "tags": tags, "prio": None,
+                    "vclass": "typed", "boundary": True})
     return ops
 
 
@@ -1330,20 +1370,36 @@ def run_op(E, fx, op):
     from bacpypes.apdu import (ReadPropertyRequest, WritePropertyRequest, ReadPropertyMultipleRequest,
                                ReadAccessSpecification)
     from bacpypes.basetypes import PropertyReference
+    # every other request is sent with ONE long-lived request object per service, modified
+    # between sends (object, property, index, value, priority) — as applications that keep a
+    # request around do; the others with a fresh object.  What is asked must be what is answered.
+    fx.sent = getattr(fx, "sent", 0) + 1
+    kept = fx.__dict__.setdefault("kept_requests", {})
+    reuse = fx.sent % 2 == 1
     if op["op"] == "rp":
-        req = ReadPropertyRequest(objectIdentifier=fx.oid_py(op["oid"]), propertyIdentifier=fx.pid_py(op["pid"]),
-                                  propertyArrayIndex=op["idx"])
+        kw = dict(objectIdentifier=fx.oid_py(op["oid"]), propertyIdentifier=fx.pid_py(op["pid"]),
+                  propertyArrayIndex=op["idx"])
+        cls = ReadPropertyRequest
     elif op["op"] == "wp":
-        req = WritePropertyRequest(objectIdentifier=fx.oid_py(op["oid"]), propertyIdentifier=fx.pid_py(op["pid"]),
-                                   propertyArrayIndex=op["idx"], propertyValue=any_of_tags(op["tags"]),
-                                   priority=op["prio"])
+        kw = dict(objectIdentifier=fx.oid_py(op["oid"]), propertyIdentifier=fx.pid_py(op["pid"]),
+                  propertyArrayIndex=op["idx"], propertyValue=any_of_tags(op["tags"]), priority=op["prio"])
+        cls = WritePropertyRequest
     elif op["op"] == "rpm":
-        req = ReadPropertyMultipleRequest(listOfReadAccessSpecs=[
+        kw = dict(listOfReadAccessSpecs=[
             ReadAccessSpecification(objectIdentifier=fx.oid_py(s["oid"]), listOfPropertyReferences=[
                 PropertyReference(propertyIdentifier=fx.pid_py(r["pid"]), propertyArrayIndex=r["idx"])
                 for r in s["refs"]]) for s in op["specs"]])
+        cls = ReadPropertyMultipleRequest
     else:
         raise core.Infra("bad op")
+    if reuse and op["op"] in kept:
+        req = kept[op["op"]]
+        for k, v in kw.items():
+            setattr(req, k, v)
+    else:
+        req = cls(**kw)
+        if reuse:
+            kept[op["op"]] = req
     E.vt.errors[:] = []
     raw = fx.ask(req)
     return raw, canon_reply(E, op, raw)
